@@ -1,0 +1,147 @@
+//go:build verif
+
+package text
+
+// Text-format string literals (C25): output byte classes of the encoder.
+//
+// specPlain: a byte that may stand for itself inside a double-quoted literal whatever the
+// settings: printable ASCII other than the two quote characters and the backslash.
+func specPlain(c byte) bool {
+	return 0x20 <= c && c <= 0x7e && c != '"' && c != '\'' && c != '\\'
+}
+
+// indexNeedEscapeInString returns the length of the longest prefix of plain bytes.
+//
+// @ props C25
+// @ mode int
+// @ loop 1 invariant 0 <= i && i <= len(s) && forallStr(s, 0, i, func(k int, c byte) bool { return specPlain(c) })
+func contract_indexNeedEscapeInString(s string) (r int) {
+	ensures(0 <= r && r <= len(s))
+	ensures(forallStr(s, 0, r, func(k int, c byte) bool { return specPlain(c) }))
+	ensures(imp(r < len(s), !specPlain(s[r])))
+	return
+}
+
+// appendString: the literal is out ++ '"' ++ body ++ '"' where the body
+//   - never contains a raw control byte (< 0x20) or DEL, so no raw newline or NUL, which the
+//     decoder rejects;
+//   - with outputASCII contains printable ASCII only;
+//   - contains a double quote only directly after a backslash (the literal cannot end early);
+//
+// and every numeric escape has exactly the number of digits the decoder reads for it
+// (\x: 2, \u: 4, \U: 8), stated at the three AppendUint sites: the zero padding already written
+// plus the digits about to be written add up to the width, directly after the escape letter.
+//
+// @ props C25
+// @ mode int
+// @ loop 1 invariant len(out) > len(old(out)) && (sameArray(out, old(out)) || freshSlice(out))
+// @ loop 1 invariant forallIn(out, len(old(out))+1, len(out), func(k int, e byte) bool { return e >= 0x20 && e != 0x7f && imp(outputASCII, e < 0x7f) })
+// @ loop 1 invariant forallIn(out, len(old(out))+1, len(out), func(k int, e byte) bool { return imp(e == '"', out[k-1] == '\\') })
+// @ loop 1 invariant out[len(old(out))] == '"' && forallIn(out, 0, len(old(out)), func(k int, e byte) bool { return e == old(out[k]) })
+// @ loop 1 split
+// @ site#1 out = strconv.AppendUint(out, uint64(r), 16): specHexPad(out, 2, 'x', specHexLen(uint64(r)))
+// @ site#2 out = strconv.AppendUint(out, uint64(r), 16): specHexPad(out, 4, 'u', specHexLen(uint64(r)))
+// @ site#3 out = strconv.AppendUint(out, uint64(r), 16): specHexPad(out, 8, 'U', specHexLen(uint64(r)))
+func contract_appendString(out []byte, in string, outputASCII bool) (r []byte) {
+	modifiesTail(out)
+	ensures(len(r) >= len(out)+2 && r[len(out)] == '"' && r[len(r)-1] == '"')
+	ensures(forallIn(r, 0, len(out), func(k int, e byte) bool { return e == old(out[k]) }))
+	ensures(forallIn(r, len(out)+1, len(r)-1, func(k int, e byte) bool { return e >= 0x20 && e != 0x7f && imp(outputASCII, e < 0x7f) }))
+	ensures(forallIn(r, len(out)+1, len(r)-1, func(k int, e byte) bool { return imp(e == '"', r[k-1] == '\\') }))
+	return
+}
+
+// specHexLen: number of hexadecimal digits of v without leading zeros (1 for 0).
+func specHexLen(v uint64) int {
+	if v < 0x10 {
+		return 1
+	}
+	if v < 0x100 {
+		return 2
+	}
+	if v < 0x1000 {
+		return 3
+	}
+	if v < 0x10000 {
+		return 4
+	}
+	if v < 0x100000 {
+		return 5
+	}
+	if v < 0x1000000 {
+		return 6
+	}
+	if v < 0x10000000 {
+		return 7
+	}
+	if v < 0x100000000 {
+		return 8
+	}
+	return 16
+}
+
+// specHexPad: out ends with a backslash, the escape letter and exactly width-digits zeros.
+func specHexPad(out []byte, width int, letter byte, digits int) bool {
+	pad := width - digits
+	return 0 <= pad && pad+2 <= len(out) && out[len(out)-pad-2] == '\\' && out[len(out)-pad-1] == letter &&
+		forall(len(out)-pad, len(out), func(k int) bool { return out[k] == '0' })
+}
+
+// ---------------------------------------------------------------- the decoder side
+
+func specHexDigit(c byte) bool {
+	return '0' <= c && c <= '9' || 'a' <= c && c <= 'f' || 'A' <= c && c <= 'F'
+}
+
+// consume, newSyntaxError: summaries (whitespace/comment skipping and error formatting are not part
+// of C25). consume only moves d.in forward inside the same input.
+//
+// @ trusted
+func contract_Decoder_consume(d *Decoder, n int) {
+	requires(d != nil && 0 <= n && n <= len(d.in))
+	modifiesPtr(d)
+	return
+}
+
+// @ trusted
+func contract_Decoder_newSyntaxError(d *Decoder, f string, x ...any) (err error) {
+	ensuresTrusted(err != nil)
+	return
+}
+
+// @ trusted
+func contract_indexNeedEscapeInBytes(b []byte) (r int) {
+	ensuresTrusted(r == indexNeedEscapeInString(string(b)))
+	return
+}
+
+// parseString (one quoted literal at the start of d.in):
+//   - never indexes or slices outside its input, for every input (numeric escapes at the very end
+//     of the input, lone surrogates, ...);
+//   - never writes into the input: the result buffer starts as a capacity-limited view of the
+//     input, so the first append moves it to fresh memory (frame: only d itself and fresh memory
+//     are written);
+//   - reads numeric escapes with exactly the widths the encoder writes: \x one or two, \u four and
+//     \U eight hexadecimal digits (and for a surrogate pair a second \u with four), all of them
+//     hexadecimal digits; octal escapes one to three octal digits;
+//   - on success consumes exactly the literal: the byte before the new position is the closing
+//     quote, equal to the opening one.
+//
+// @ props C25
+// @ mode int
+// @ pure utf16.DecodeRune utf16.IsSurrogate
+// @ loop 1 invariant suffixOf(in, old(d.in)) && len(in) < len(old(d.in)) && sameArray(d.in, old(d.in)) && len(d.in) == len(old(d.in)) && quote == old(d.in[0])
+// @ loop 1 invariant (freshSlice(out) || cap(out) == len(out)) && unchangedElems(d.in)
+// @ loop 1 split
+// @ site in, out = in[2+n:], append(out, byte(v)): 1 <= n && n <= 2 && 2+n <= len(in) && specHexDigit(in[2]) && imp(n == 2, specHexDigit(in[3]))
+// @ site in, out = in[1+n:], append(out, byte(v)): 1 <= n && n <= 3 && 1+n <= len(in) && forall(1, 1+n, func(j int) bool { return '0' <= in[j] && in[j] <= '7' })
+// @ site in = in[n:]: (n == 6 && in[1] == 'u' || n == 10 && in[1] == 'U') && n <= len(in) && forall(2, n, func(j int) bool { return specHexDigit(in[j]) })
+// @ site in = in[6:]: 6 <= len(in) && in[0] == '\\' && in[1] == 'u' && forall(2, 6, func(j int) bool { return specHexDigit(in[j]) })
+// @ callsite d.consume: 1 < arg[int](0) && arg[int](0) <= len(d.in) && d.in[arg[int](0)-1] == d.in[0]
+func contract_Decoder_parseString(d *Decoder) (s string, err error) {
+	requires(d != nil)
+	// the caller has seen the opening quote (parseStringValue tests it; documented for UnmarshalString)
+	requires(len(d.in) == 0 || d.in[0] == '"' || d.in[0] == '\'')
+	modifiesPtr(d)
+	return
+}
